@@ -87,6 +87,8 @@ func genC04Script(seed uint32, large bool) c04Script {
 			if t.Pct(20) && len(data) > 2 {
 				m.FlushAt = []int{1 + t.Draw(len(data)-1)}
 			}
+			// some senders end a compressed message with a BFINAL=1 block + 0x00
+			m.BFinal = t.Pct(30)
 		}
 		m.Frags = SplitFrags(t, len(data))
 		mf := MessageFrames(m, comp)
